@@ -22,9 +22,9 @@ def obligations(tier):
         for k3 in range(9):
             obs.append(Ob(f"C13.group/{m}/n3/k3={k3}", "c13", "c_group2", {"VF_MODE": m, "VF_N": 3, "VF_K3": k3}, t, FN,
                           f"3 entities: first two of any kind (symbolic), third of kind #{k3}; mode {m}"))
-    firsts = [0, 7, 9, 11, 14] if tier == "quick" else range(18)
+    firsts = [0, 7, 9, 11, 12, 14] if tier == "quick" else range(20)
     for g in firsts:
-        obs.append(Ob(f"C13.pipe/first={g}", "pipe", "c_group_pipe", {"VF_G1": g, "VF_GQUICK": 1 if tier == "quick" else 0}, t if tier == "quick" else 1500, ["whole pipeline (harness/pipe.py) incl. parser.py process_set"],
-                      f"three different catalogued statements, first = #{g}, others symbolic among {'12 of the ' if tier == 'quick' else ''}18 (7 entity kinds, SET x = 1 / SET a ON / SET name / SET y 2, DROP TABLE, commented table, GO, database / schema / table with a "
+        obs.append(Ob(f"C13.pipe/first={g}", "pipe", "c_group_pipe", {"VF_G1": g, "VF_GQUICK": 1 if tier == "quick" else 0}, 500 if tier == "quick" else 1800, ["whole pipeline (harness/pipe.py) incl. parser.py process_set"],
+                      f"three different catalogued statements, first = #{g}, others symbolic among {'14 of the ' if tier == 'quick' else ''}20 (three of them carry a trailing comment, two with the same text; 7 entity kinds, SET x = 1 / SET a ON / SET name / SET y 2, DROP TABLE, commented table, GO, database / schema / table with a "
                       "TABLESPACE clause, database with COMMENT): flat vs grouped: every entity in exactly one bucket - the bucket of its statement's kind -, order kept, comments gathered"))
     return obs
